@@ -275,7 +275,9 @@ structure Cfg (α : Type) where
   detect : α → Bytes                -- `http.DetectContentType(p)`
 
 /-- `Provision`: `MinLength == 0` means the default -/
-def provisionMinLen (configured : Int) : Int := if configured = 0 then 512 else configured
+def defaultMinLength : Nat := 512
+
+def provisionMinLen (configured : Int) : Int := if configured = 0 then Int.ofNat defaultMinLength else configured
 
 structure St (α : Type) where
   encName : Bytes
@@ -350,6 +352,31 @@ def varyStep (h : Hdr) : Hdr := if hasVary h then h else hAdd h kVary vAE
 def initHdr (name : Bytes) (h : Hdr) : Hdr :=
   etagStep name (hDel (varyStep (hSet (hDel h kCL) kCE name)) kAR)
 
+/-- the same edits as data: which `http.Header` method `init` calls on which field, in source order
+    (tied to the source by `Props.init_edits_match_source`) -/
+inductive InitEdit where
+  | del (k : Bytes)        -- `hdr.Del(k)`
+  | setCoding (k : Bytes)  -- `hdr.Set(k, rw.encodingName)`
+  | addVary (k : Bytes)    -- `if !hasVaryValue(…) { hdr.Add(k, "Accept-Encoding") }`
+  | setEtag (k : Bytes)    -- `if etag != "" && !weak { hdr.Set(k, adjusted) }`
+deriving DecidableEq, Repr
+
+def initEdits : List InitEdit := [.del kCL, .setCoding kCE, .addVary kVary, .del kAR, .setEtag kEtag]
+
+def applyInitEdit (name : Bytes) (h : Hdr) : InitEdit → Hdr
+  | .del k => hDel h k
+  | .setCoding k => hSet h k name
+  | .addVary k => if (hValues h k).any varyValueHas then h else hAdd h k vAE
+  | .setEtag k =>
+    if !(hGet h k).isEmpty && !hasPrefix vWeakPrefix (hGet h k) then hSet h k (adjustEtag name (hGet h k)) else h
+
+/-- `Del` / `Set` / `Add` + field, as the extractor prints a call -/
+def InitEdit.describe : InitEdit → Bytes
+  | .del k => [68, 101, 108, 32] ++ k
+  | .setCoding k => [83, 101, 116, 32] ++ k
+  | .addVary k => [65, 100, 100, 32] ++ k
+  | .setEtag k => [83, 101, 116, 32] ++ k
+
 def initOk (cfg : Cfg α) (st : St α) : Bool :=
   (hGet st.hdr kCE).isEmpty && isEncodeAllowed st.hdr && cfg.matcher st.statusCode st.hdr
 
@@ -396,6 +423,9 @@ def rwFlush (st : St α) : St α :=
 /-! ### `ReadFrom` (encode.go:362-391); `rw.ResponseWriter` is always a `*ResponseWriterWrapper`,
     hence always an `io.ReaderFrom` — the `!ok` branch is dead -/
 
+/-- `const sniffLen = 512` (encode.go, "copied from stdlib") -/
+def sniffLen : Nat := 512
+
 /-- `io.CopyBuffer(writerOnly{rw}, io.LimitReader(r, sniffLen), buf)`: `n` = bytes the limit still allows;
     returns the state, the unread chunks and the remaining allowance -/
 def sniffLoop (cfg : Cfg α) : List α → Nat → St α → St α × List α × Nat
@@ -417,7 +447,7 @@ def afterSniff (res : St α × List α × Nat) : St α :=
 def nonEmpty (cfg : Cfg α) (chunks : List α) : List α := chunks.filter (fun c => cfg.size c != 0)
 
 def rwReadFrom (cfg : Cfg α) (st : St α) (chunks : List α) : St α :=
-  if !st.wroteHeader && decide (cfg.minLen > 0) then afterSniff (sniffLoop cfg (nonEmpty cfg chunks) 512 st)
+  if !st.wroteHeader && decide (cfg.minLen > 0) then afterSniff (sniffLoop cfg (nonEmpty cfg chunks) sniffLen st)
   else copyRest st (nonEmpty cfg chunks)
 
 /-! ### `Close` (encode.go:395-418) -/
